@@ -29,7 +29,7 @@ ASSUMPTIONS = ["check bytes of symbolic well-formed frames are computed with the
 
 
 def bounds(tier):
-    return {"unknown_payload": [0, 1, 3] if tier == "quick" else [0, 1, 3, 6, 12], "free_stream_extra": [0, 2, 4] if tier == "quick" else [0, 1, 2, 4, 8]}
+    return {"unknown_payload": [0, 1, 3] if tier == "quick" else [0, 1, 3, 6, 12], "free_stream_extra": [0, 2, 4] if tier == "quick" else [0, 1, 2, 4, 6]}
 
 
 def instances(tier):
@@ -43,10 +43,12 @@ def instances(tier):
             for n in ([0, 4] if tier == "quick" else [0, 2, 4, 8]):
                 for rl, rc in ((n, 1), (0, 0), (2, n // 2)) if n else ((0, 0),):
                     out.append({"kind": "unknown_c0", "gen": 5, "n": n, "rl": rl, "rc": rc})
-        for L in ([0, 2, 4] if tier == "quick" else [0, 1, 2, 4, 8]):
+        for L in ([0, 2, 4] if tier == "quick" else [0, 1, 2, 4, 6]):
             out.append({"kind": "free_stream", "gen": g, "L": L, "then": "eof"})
             out.append({"kind": "free_stream", "gen": g, "L": L, "then": "silence"})
-        out.append({"kind": "stride", "gen": 5 if g == 5 else 5, "delta": 3 if g == 4 else 6})
+        out.append({"kind": "stride", "gen": 5, "delta": 3 if g == 4 else 6, "what": "zone"})
+        out.append({"kind": "stride", "gen": 5, "delta": 2 if g == 4 else 5, "what": "ac"})
+        out.append({"kind": "stride", "gen": 5, "delta": 1 if g == 4 else 4, "what": "timer"})
     return out
 
 
@@ -205,6 +207,8 @@ def _stride(ctx, p):
     from ref import at5 as r5
     g = Gen(5)
     d = p["delta"]
+    if p.get("what", "zone") != "zone":
+        return _stride_other(ctx, p, g, d)
     rec0 = r5.build_zone_status(3, 1, 1, 100, 150, 1, 743, 0, 0) + [ctx.byte(f"x{i}") for i in range(d)]
     rec1 = r5.build_zone_status(4, 0, 0, 50, 0xFF, 0, 0x7FF, 0, 0) + [ctx.byte(f"y{i}") for i in range(d)]
     fr = _frame(ctx, 5, 0xB0, 0x80, 5, 0xC0, framing.c0(0x21, [], 8 + d, 2, rec0 + rec1))
@@ -214,5 +218,36 @@ def _stride(ctx, p):
     zs = got[0][2].sub_message.zones
     ctx.check(len(zs) == 2 and zs[0].zone_number == 3 and zs[1].zone_number == 4 and zs[0].temperature == 24.3 and zs[1].temperature is None
               and zs[0].set_point == 25.0 and zs[1].set_point is None, "stride.prefix_decoded")
+    for lab in ("unknown.delivered_unchanged", "unknown.connection_undisturbed", "free.header_as_reference", "free.task_survives", "free.recovers"):
+        ctx.reach(lab)
+
+
+def _stride_other(ctx, p, g, d):
+    from ref import at5 as r5
+    A = {}
+    if p["what"] == "ac":
+        base0 = r5.build_ac_status(1, 1, 4, 2, 120, 0, 0, 0, 1, 730, 0, pad=0)
+        base1 = r5.build_ac_status(2, 0, 1, 3, 100, 0, 0, 1, 0, 740, 7, pad=0)
+        sub, known = 0x23, 8
+    else:
+        base0 = r5.build_timer_status(1, 0, 7, 31, 1, 0, 0)
+        base1 = r5.build_timer_status(2, 1, 0, 0, 0, 22, 58)
+        sub, known = 0x33, 9
+    rec0 = base0 + [ctx.byte(f"x{i}") for i in range(d)]
+    rec1 = base1 + [ctx.byte(f"y{i}") for i in range(d)]
+    fr = _frame(ctx, 5, 0xB0, 0x80, 5, 0xC0, framing.c0(sub, [], known + d, 2, rec0 + rec1))
+    got, conns, fails = _deliver_and_probe(ctx, g, fr)
+    ok = len(got) == 2 and conns == 1 and not fails
+    ctx.check(ok, "stride.prefix_decoded", detail={"what": p["what"], "delivered": len(got), "conns": conns})
+    sm = got[0][2].sub_message
+    if p["what"] == "ac":
+        xs = sm.ac_status
+        ctx.check(len(xs) == 2 and xs[0].ac_number == 1 and xs[1].ac_number == 2 and xs[1].error_code == 7 and xs[0].temperature == 23.0
+                  and xs[1].set_point == 20.0, "stride.prefix_decoded", detail="AC status records misread under an oversized stride")
+    else:
+        xs = sm.ac_timer_status
+        ctx.check(len(xs) == 2 and xs[0].ac_number == 1 and xs[1].ac_number == 2 and xs[0].on_timer.hour == 7 and xs[0].on_timer.minute == 31
+                  and xs[1].off_timer.hour == 22 and xs[1].off_timer.minute == 58 and xs[1].on_timer.disabled is True,
+                  "stride.prefix_decoded", detail="timer records misread under an oversized stride")
     for lab in ("unknown.delivered_unchanged", "unknown.connection_undisturbed", "free.header_as_reference", "free.task_survives", "free.recovers"):
         ctx.reach(lab)
